@@ -60,8 +60,9 @@ def case_line(case):
 
 
 class Session(object):
-    def __init__(self, exe, rundir, tag):
+    def __init__(self, exe, rundir, tag, delay=None):
         self.exe = exe
+        self.delay = delay
         self.peer = vpeer.Peer(rundir, "speer-" + tag)
         self.errpath = os.path.join(rundir, "serr-" + tag)
         self.proc = None
@@ -73,6 +74,8 @@ class Session(object):
         self.erroff = self.errf.tell()
         env = hrun.san_env()
         env["DBUS_DISABLE_MEM_POOLS"] = "1"       # see checks/c17.py: the embedded-tests malloc counter is not thread-safe
+        if self.delay:
+            env["DBUS_VERIF_DELAY"] = self.delay  # hook H3: delay points after every release of the connection lock
         self.proc = subprocess.Popen([self.exe, self.peer.address], stdin=subprocess.PIPE, stdout=subprocess.PIPE,
                                      stderr=self.errf, env=env)
         os.set_blocking(self.proc.stdout.fileno(), False)
@@ -273,9 +276,12 @@ def worker(args):
     rng = random.Random("%s:C17ser:%s" % (seed, shard))
     part = report.Part()
     rundir = tempfile.mkdtemp(prefix="verif-c17s-")
-    ses = Session(exe, rundir, flavor)
+    delay = "%d:%d:%d" % (rng.choice([60, 200, 400]), rng.choice([0, 50, 300]), (seed * 17 + shard) & 0x7FFFFFFF) if shard % 2 == 1 else None
+    ses = Session(exe, rundir, flavor, delay=delay)
     try:
         for i in range(n):
+            if delay:
+                part.count("serial-part:cases-with-delay-points")
             case = make_case(rng)
             part.evaluations += 1
             part.count("serial-part:cases:" + flavor)
